@@ -158,10 +158,10 @@ fn eval(data: &[u8], cuts: &[usize], st: &mut Stats, enumerated: bool, origin: &
 }
 
 pub fn run(cfg: &Cfg) -> Stats {
-    let (depth, ntext, items) = match cfg.tier {
-        Tier::Tiny => (1u32, 30u64, 12u64),
-        Tier::Quick => (3, 30_000, 40),
-        Tier::Thorough => (4, 2_000_000, 60),
+    let (depth, ntext, items, max_thr) = match cfg.tier {
+        Tier::Tiny => (1u32, 30u64, 12u64, 128usize),
+        Tier::Quick => (3, 30_000, 40, 16384),
+        Tier::Thorough => (4, 2_000_000, 60, 65536),
     };
     let prefixes: [&[u8]; 3] = [b"", b"\x1b[1;3;31;42;58;5;9mP", b"\x1b[4;9;38;2;9;8;7;48;5;200mQ"];
     let mut st = par(cfg, |shard, n| {
@@ -227,6 +227,28 @@ pub fn run(cfg: &Cfg) -> Stats {
                     ];
                     for c in cases {
                         eval(c.as_bytes(), &[], &mut st, true, "colour-values");
+                    }
+                }
+            }
+        }
+        // runs whose length sits on a power-of-two threshold, ended by a style change / CRLF / reset / end of input
+        for (ti, t) in gen::THRESHOLDS.iter().enumerate() {
+            if *t > max_thr {
+                continue;
+            }
+            for d in -2i64..=2 {
+                for ending in 0..4u8 {
+                    for styled in [false, true] {
+                        kk += 1;
+                        if kk % n != shard {
+                            continue;
+                        }
+                        let doc = gen::threshold_document((*t as i64 + d) as usize, ending, styled);
+                        eval(&doc, &[], &mut st, true, "threshold-run");
+                        if ti < 8 {
+                            let cuts = [doc.len() / 2];
+                            eval(&doc, &cuts, &mut st, true, "threshold-run-chunked");
+                        }
                     }
                 }
             }
